@@ -3,6 +3,7 @@ package main
 import (
 	"go/token"
 	"go/types"
+	"regexp"
 	"strings"
 
 	"golang.org/x/tools/go/ssa"
@@ -77,6 +78,14 @@ func checkC16(c *Ctx) {
 					rem, one = one, rem
 				}
 				cst, isConst := one.(*ssa.Const)
+				// a conversion of the remainder (it is below numReplicas) changes nothing
+				for {
+					cv, isC := rem.(*ssa.Convert)
+					if !isC {
+						break
+					}
+					rem = cv.X
+				}
 				rb, isRem := rem.(*ssa.BinOp)
 				if isConst && isRem && rb.Op == token.REM {
 					cv, _ := constInt(cst)
@@ -176,6 +185,18 @@ func c16Carousel(c *Ctx) {
 		sorted := afterOf(fl.At(u), func(s string) bool {
 			return strings.HasPrefix(s, "slices.Sort[") && strings.Contains(s, fl.K.Key(ia.X))
 		})
+		viaHelper := !sorted
+		for _, lf := range leaves(fl, ia.X, u) {
+			if !viaHelper {
+				break
+			}
+			sorted = true
+			lk := lf.KeyIn(fl)
+			if !afterOf(lf.Facts, func(s string) bool { return strings.HasPrefix(s, "slices.Sort[") && strings.Contains(s, lk) }) {
+				sorted = false
+				break
+			}
+		}
 		if !sorted {
 			bad = append(bad, "candidates are not sorted before the draw at "+p.InstrPos(u))
 		}
@@ -184,63 +205,111 @@ func c16Carousel(c *Ctx) {
 		"the leader is ChooseRoundRobin(view, n) or candidates[rnd.Int() % len(candidates)] with candidates sorted first and rnd seeded by SharedRandomSeed()+view", join(bad))
 	// candidates: appended inside the ForEach closure over the committed head's QC signers, under !Contains(lastAuthors, id)
 	okCand := false
-	eachInstr(gl, func(in ssa.Instruction) {
-		call, ok := in.(*ssa.Call)
-		if !ok || !call.Call.IsInvoke() || call.Call.Method.Name() != "ForEach" {
-			return
+	// argAt: the key, in GetLeader's terms, of what a helper's parameter pi stands for (the argument of its call in GetLeader)
+	argAt := func(hf *ssa.Function, pi string) string {
+		if hf == gl || !strings.HasPrefix(pi, "p") {
+			return pi
 		}
-		recv := fl.K.Key(call.Call.Value)
-		if !strings.HasPrefix(recv, "invoke (hs.QuorumSignature).Participants("+kQCSig+kBlockQC+"(*hs/protocol.ViewStates).CommittedBlock(") {
-			return
+		idx := 0
+		for _, ch := range pi[1:] {
+			if ch < '0' || ch > '9' {
+				return pi
+			}
+			idx = idx*10 + int(ch-'0')
 		}
-		cl := funcOfValue(call.Call.Args[0])
-		if cl == nil {
-			return
+		out := ""
+		for _, s := range callsIn(gl, false, func(cc *ssa.CallCommon) bool { return calleeIs(cc, hf) }) {
+			if idx < len(s.Common().Args) {
+				k := fl.K.Key(s.Common().Args[idx])
+				if out != "" && out != k {
+					return pi
+				}
+				out = k
+			}
 		}
-		fcl := NewFlow(p, cl)
-		nApp, gated := 0, true
-		eachInstr(cl, func(in2 ssa.Instruction) {
-			c2, ok := in2.(*ssa.Call)
-			if !ok {
+		if out == "" {
+			return pi
+		}
+		return out
+	}
+	paramIn := regexp.MustCompile(`\bp\d+\b`)
+	inGL := func(hf *ssa.Function, k string) string {
+		if hf == gl {
+			return k
+		}
+		return paramIn.ReplaceAllStringFunc(k, func(m string) string { return argAt(hf, m) })
+	}
+	for _, hf := range helperClosure(p, gl, 2) {
+		hfl := fl
+		if hf != gl {
+			hfl = NewFlow(p, hf)
+		}
+		eachInstr(hf, func(in ssa.Instruction) {
+			call, ok := in.(*ssa.Call)
+			if !ok || !call.Call.IsInvoke() || call.Call.Method.Name() != "ForEach" {
 				return
 			}
-			if b, ok := c2.Call.Value.(*ssa.Builtin); ok && b.Name() == "append" {
-				nApp++
-				var elem string
-				storedInto(sliceBase(c2.Call.Args[1]), func(e ssa.Value) bool { elem = fcl.K.Key(e); return false })
-				if elem != "p0" || !falseOf(fcl.At(in2), func(k string) bool {
-					return strings.HasPrefix(k, "slices.Contains[") && strings.Contains(k, "lastAuthors, p0)")
-				}) {
-					gated = false
+			recv := inGL(hf, hfl.K.Key(call.Call.Value))
+			if !strings.HasPrefix(recv, "invoke (hs.QuorumSignature).Participants("+kQCSig+kBlockQC+"(*hs/protocol.ViewStates).CommittedBlock(") {
+				return
+			}
+			cl := funcOfValue(call.Call.Args[0])
+			if cl == nil {
+				return
+			}
+			fcl := NewFlow(p, cl)
+			nApp, gated := 0, true
+			eachInstr(cl, func(in2 ssa.Instruction) {
+				c2, ok := in2.(*ssa.Call)
+				if !ok {
+					return
 				}
+				if b, ok := c2.Call.Value.(*ssa.Builtin); ok && b.Name() == "append" {
+					nApp++
+					var elem string
+					storedInto(sliceBase(c2.Call.Args[1]), func(e ssa.Value) bool { elem = fcl.K.Key(e); return false })
+					// gate: id is not in the exclusion list (any slice other than the one appended to)
+					dst := fcl.K.Key(c2.Call.Args[0])
+					if elem != "p0" || !falseOf(fcl.At(in2), func(k string) bool {
+						return strings.HasPrefix(k, "slices.Contains[") && strings.Contains(k, ", p0)") && !strings.Contains(k, "("+dst+",")
+					}) {
+						gated = false
+					}
+				}
+			})
+			if nApp == 1 && gated {
+				okCand = true
 			}
 		})
-		if nApp == 1 && gated {
-			okCand = true
-		}
-	})
+	}
 	_ = candAlloc
 	c.Check(okCand, "C16.3/candidates", "Carousel.GetLeader: candidates = signers of the committed head's QC minus recent authors", p.FuncPos(gl),
 		"a signer id is appended to candidates only under !slices.Contains(lastAuthors, id), iterating the participants of CommittedBlock().QuorumCert().Signature()", "candidate construction not recognised")
 	// lastAuthors: proposers of the committed head and its ancestors, at most f of them
 	okAuth := false
-	eachInstr(gl, func(in ssa.Instruction) {
-		call, ok := in.(*ssa.Call)
-		if !ok {
-			return
+	for _, hf := range helperClosure(p, gl, 2) {
+		hfl := fl
+		if hf != gl {
+			hfl = NewFlow(p, hf)
 		}
-		if b, ok := call.Call.Value.(*ssa.Builtin); ok && b.Name() == "append" {
-			var elem string
-			storedInto(sliceBase(call.Call.Args[1]), func(e ssa.Value) bool { elem = fl.K.Key(e); return false })
-			if strings.HasPrefix(elem, "(*hs.Block).Proposer(phi@") {
-				if hasCmp(fl.At(in), "<", func(k string) bool { return strings.HasPrefix(k, "phi@") }, func(k string) bool {
-					return strings.HasPrefix(k, "hs.NumFaulty((*hs/core.RuntimeConfig).ReplicaCount(")
-				}) {
-					okAuth = true
+		eachInstr(hf, func(in ssa.Instruction) {
+			call, ok := in.(*ssa.Call)
+			if !ok {
+				return
+			}
+			if b, ok := call.Call.Value.(*ssa.Builtin); ok && b.Name() == "append" {
+				var elem string
+				storedInto(sliceBase(call.Call.Args[1]), func(e ssa.Value) bool { elem = hfl.K.Key(e); return false })
+				if strings.HasPrefix(elem, "(*hs.Block).Proposer(phi@") {
+					if hasCmp(hfl.At(in), "<", func(k string) bool { return strings.HasPrefix(k, "phi@") }, func(k string) bool {
+						return strings.HasPrefix(inGL(hf, k), "hs.NumFaulty((*hs/core.RuntimeConfig).ReplicaCount(")
+					}) {
+						okAuth = true
+					}
 				}
 			}
-		}
-	})
+		})
+	}
 	c.Check(okAuth, "C16.3/authors", "Carousel.GetLeader: excludes the proposers of at most the last f committed blocks", p.FuncPos(gl),
 		"lastAuthors collects block.Proposer() along the parent chain only while i < NumFaulty(ReplicaCount())", "author-exclusion loop not recognised")
 }
